@@ -157,6 +157,14 @@ def shape_decls(shape, i, v2):
     if kind == 'scalar':
         t, acc = arg
         return [obj(n + 'Scalar', V1_TYPES[t][1 if v2 else 0], ['testRoot', 10 + i], ACCESS[acc])]
+    if kind == 'scalar-defval':
+        # a scalar of SMIv1 type t with a DEFVAL in a notation legal for it
+        word = V1_TYPES[arg][1 if v2 else 0]
+        dv = {'INTEGER': ('num', 5), 'Counter': ('num', 0), 'Gauge': ('num', 7), 'TimeTicks': ('num', 100),
+              'IpAddress': ('lit', "'c0a80001'H"), 'NetworkAddress': ('lit', "'c0a80001'H"), 'Opaque': ('lit', "'ff'H"),
+              'OCTET STRING': ('str', 'abc'), 'OBJECT IDENTIFIER': ('id', 'testRoot', 'oid'), 'DisplayString': ('str', 'abc'),
+              'INTEGER-range': ('num', 9), 'INTEGER-enum': ('id', 'down')}[V1_TYPES[arg][0]]
+        return [obj(n + 'Scalar', word, ['testRoot', 10 + i], 'read-write', defval=dv)]
     if kind == 'table':
         ncols, idx = arg
         cols = [n + 'Idx', n + 'Val', n + 'Aux'][:ncols + 1]
@@ -215,7 +223,7 @@ def v1_imports(decls):
 
 SHAPES = [('scalar', (t, a)) for t in range(len(V1_TYPES)) for a in range(len(ACCESS))] + \
          [('table', (c, x)) for c in (1, 2) for x in (0, 1, 2)] + [('trap', v) for v in (0, 1, 2)] + [('node', 0)] + \
-         [('trap0', 5), ('trap0', 0)]
+         [('trap0', 5), ('trap0', 0)] + [('scalar-defval', t) for t in range(len(V1_TYPES))]
 SEQ_SHAPES = [('scalar', (1, 0)), ('scalar', (5, 1)), ('table', (1, 0)), ('table', (2, 1)), ('trap', 1), ('node', 0)]
 
 
@@ -247,7 +255,7 @@ def compare(shapes, sig):
             if k1 != k2:
                 vs.append(('%s|json|symbol-sets-differ' % sig, 'v1 only %r, v2 only %r\n%s' % (sorted(k1 - k2), sorted(k2 - k1), t1)))
             for k in sorted(k1 & k2):
-                for field in ('oid', 'class', 'nodetype', 'maxaccess', 'objects', 'indices'):
+                for field in ('oid', 'class', 'nodetype', 'maxaccess', 'objects', 'indices', 'default'):
                     a, b = d1[k].get(field), d2[k].get(field)
                     if field in ('objects', 'indices') and a and b:
                         a = [dict(x, module='*') for x in a]
@@ -314,7 +322,7 @@ def compare(shapes, sig):
 
 class Equivalence(object):
     name = 'equivalence'
-    describe = ('each of 58 SMIv1-expressible shapes alone (scalars of 12 types x 4 ACCESS words, tables with 1-2 extra columns x 3 '
+    describe = ('each of 70 SMIv1-expressible shapes alone (scalars of 12 types x 4 ACCESS words, scalars of the 12 types with a DEFVAL, tables with 1-2 extra columns x 3 '
                 'INDEX choices, TRAP-TYPE with 0..2 VARIABLES, plain node) and every sequence of 2 (3) shapes over 6 '
                 'representatives, as SMIv1 text and as SMIv2 transliteration')
 
@@ -337,6 +345,8 @@ class Equivalence(object):
         label = '+'.join(sorted(set(s[0] for s in shapes)))
         if len(shapes) == 1 and shapes[0][0] == 'scalar':
             label += ':' + V1_TYPES[shapes[0][1][0]][0]
+        if len(shapes) == 1 and shapes[0][0] == 'scalar-defval':
+            label += ':' + V1_TYPES[shapes[0][1]][0]
         return compare(shapes, 'C16|equiv|%s' % label)
 
 
@@ -366,4 +376,66 @@ class TypeIndex(object):
         return 'x', vs, 2
 
 
-FAMILIES = [Imports(), Equivalence(), TypeIndex()]
+RENAMED = {'nullSpecific': ('SNMPv2-SMI', 'zeroDotZero'), 'ipRoutingTable': ('RFC1213-MIB', 'ipRouteTable'),
+           'snmpEnableAuthTraps': ('SNMPv2-MIB', 'snmpEnableAuthenTraps')}
+
+
+class RenamedUses(object):
+    name = 'uses-of-renamed-symbols'
+    describe = ('the three RFC1158-MIB symbols whose SMIv2 successor has another NAME (nullSpecific, ipRoutingTable, '
+                'snmpEnableAuthTraps), imported by an SMIv1 module and USED in its body - as OID parent, TRAP-TYPE VARIABLES member, '
+                'OBJECT IDENTIFIER DEFVAL: the references must come out as in the transliteration (new name, new module)')
+
+    def blocks(self, tier):
+        return [{}]
+
+    def cases(self, block, tier):
+        for sym in sorted(RENAMED):
+            for use in ('parent', 'variables', 'defval'):
+                yield {'sym': sym, 'use': use}
+
+    def run_case(self, case):
+        sym, use = case['sym'], case['use']
+        home, newname = RENAMED[sym]
+
+        def body(v2):
+            ref = newname if v2 else sym
+            acc, st = ('MAX-ACCESS', 'current') if v2 else ('ACCESS', 'mandatory')
+            d = fixed_context(v2)
+            if use == 'parent':
+                d.append({'k': 'value', 'name': 'hungBelow', 'oid': [ref, 77]})
+            elif use == 'variables':
+                if v2:
+                    d.append({'k': 'nt', 'name': 'theTrap', 'objects': [ref], 'status': 'current', 'descr': 'd', 'oid': ['testRoot', 0, 5]})
+                else:
+                    d.append({'k': 'trap', 'name': 'theTrap', 'enterprise': ['testRoot'], 'vars': [ref], 'descr': 'd', 'num': 5})
+            else:
+                d.append({'k': 'ot', 'name': 'oidObj', 'syntax': ('simple', 'OBJECT IDENTIFIER'), 'access': (acc, 'read-write'),
+                          'status': st, 'descr': 'd', 'oid': ['testRoot', 9], 'defval': ('id', ref, 'oid')})
+            return d
+        d1, d2 = body(False), body(True)
+        imps = dict(v1_imports(d1))
+        imps['RFC1158-MIB'] = [sym]
+        m1 = {'name': 'V1TEST-MIB', 'imports': sorted(imps.items()), 'decls': d1}
+        imps2 = {'SNMPv2-SMI': ['enterprises', 'OBJECT-TYPE'] + (['NOTIFICATION-TYPE'] if use == 'variables' else [])}
+        imps2.setdefault(home, []).append(newname)
+        m2 = {'name': 'V2TEST-MIB', 'imports': sorted(imps2.items()), 'decls': d2}
+        t1, t2 = mibspec.pretty([m1]), mibspec.pretty([m2])
+        sig = 'C16|renamed-use|%s|%s' % (sym, use)
+        vs = []
+        r1, w1 = compile_v({'V1TEST-MIB': t1}, ['V1TEST-MIB'], 'json')
+        r2, w2 = compile_v({'V2TEST-MIB': t2}, ['V2TEST-MIB'], 'json')
+        if r2.get('V2TEST-MIB') != 'compiled':
+            raise core.InternalError('the SMIv2 transliteration does not compile: %r\n%s' % (getattr(r2.get('V2TEST-MIB'), 'error', None), t2))
+        if r1.get('V1TEST-MIB') != 'compiled':
+            return 'failed', [('%s|not-compiled' % sig, '%s\n%r' % (t1, getattr(r1.get('V1TEST-MIB'), 'error', None)))], 2
+        doc1, doc2 = json.loads(w1['V1TEST-MIB']), json.loads(w2['V2TEST-MIB'])
+        name = {'parent': 'hungBelow', 'variables': 'theTrap', 'defval': 'oidObj'}[use]
+        for field in ('oid', 'objects', 'default'):
+            a, b = doc1.get(name, {}).get(field), doc2.get(name, {}).get(field)
+            if a != b:
+                vs.append(('%s|%s-differs' % (sig, field), 'SMIv1 %r, transliteration %r\n%s' % (a, b, t1)))
+        return 'ok', vs, 2
+
+
+FAMILIES = [Imports(), Equivalence(), TypeIndex(), RenamedUses()]
